@@ -66,9 +66,9 @@ class Reporter:
     add_cost: bool = True
 
     def __post_init__(self):
+        self.iter = 0
         if self.add_time:
             self.start = perf_counter()
-            self.iter = 0
             # TODO dollar-cost computation is not available for file-based backends, what would be
             #  needed to add support for those backends will be to add a way to access instance-type
             #  information.
